@@ -31,10 +31,11 @@ const (
 	KFnBldAny           // flyt.NewNode().With...() Any-style
 	KFnMixed            // options and builder, Result and Any mixed
 	KFlow               // a flyt.Flow (NodeSpec.Flow describes it)
+	KBatch              // a sequential two-item batch node (builder); item calls are recorded as phase "item"
 	NumScriptedKinds = KFlow
 )
 
-var KindNames = []string{"base", "baseFB", "plain", "plainFB", "plainRetry", "plainRetryFB", "fnOptRes", "fnOptAny", "fnBldRes", "fnBldAny", "fnMixed", "flow"}
+var KindNames = []string{"base", "baseFB", "plain", "plainFB", "plainRetry", "plainRetryFB", "fnOptRes", "fnOptAny", "fnBldRes", "fnBldAny", "fnMixed", "flow", "batch"}
 
 func KindHasRetry(k int) bool { return k != KPlain && k != KPlainFB }
 func KindCanFB(k int) bool    { return k != KBase && k != KPlain && k != KPlainRetry }
@@ -45,6 +46,9 @@ const (
 	EWrapped         // callback returns fmt.Errorf("...: %w", sentinel)
 	ECustom          // *CustomErr (checked with errors.As + field)
 	NumErrKinds
+	// ECtxLike is used explicitly (never drawn by the generators): the callback's error wraps the sentinel
+	// AND a context error, although the run's own context is alive (e.g. a per-attempt timeout).
+	ECtxLike = NumErrKinds
 )
 
 // CustomErr is a pointer-receiver error type carrying a payload.
@@ -102,6 +106,14 @@ type Scenario struct {
 	UseFlowRun bool       `json:"use_flow_run,omitempty"` // call Flow.Run instead of flyt.Run when root is a flow
 	Inject     Inject     `json:"inject,omitempty"`
 	FreshStore bool       `json:"fresh_store,omitempty"` // new store for every run
+	Rewire     []Rewire   `json:"rewire,omitempty"`      // Connect calls made between runs
+}
+
+// Rewire is a Connect call made on flow node Flow after run number AfterRun (0-based) has finished.
+type Rewire struct {
+	AfterRun int  `json:"after_run"`
+	Flow     int  `json:"flow"`
+	Conn     Conn `json:"conn"`
 }
 
 // Event is one user-callback invocation observed at the boundary.
@@ -135,6 +147,7 @@ type Outcome struct {
 	Store   []string `json:"store_log"` // contents of the store's visit log after the run
 	CtxErr  string `json:"ctx_err,omitempty"`
 	Discard bool   `json:"discard,omitempty"`
+	Runaway bool   `json:"runaway,omitempty"` // the run exceeded RunawayLimit callbacks and was cut off
 	CancelSeq int  `json:"cancel_seq"` // seq of the callback that cancelled (-1 none)
 	err     error
 }
@@ -148,6 +161,7 @@ type payload struct {
 
 // Exec is the runtime of one scenario (all runs).
 type Exec struct {
+	runIdx int
 	Sc     *Scenario
 	mu     sync.Mutex
 	events []Event
@@ -162,6 +176,7 @@ type Exec struct {
 	zoo    []zoo.Named
 	realTimeout bool
 	tripped atomic.Bool
+	runaway atomic.Bool
 }
 
 type core struct {
@@ -246,6 +261,13 @@ func (x *Exec) mkErr(kind int, id string) error {
 	case EWrapped:
 		sentinel = errors.New("sentinel " + id)
 		ret = fmt.Errorf("callback context for %s: %w", id, sentinel)
+	case ECtxLike:
+		sentinel = errors.New("sentinel " + id)
+		if len(id)%2 == 0 {
+			ret = fmt.Errorf("attempt timed out (%w): %w", context.DeadlineExceeded, sentinel)
+		} else {
+			ret = fmt.Errorf("sub-operation cancelled (%w): %w", context.Canceled, sentinel)
+		}
 	default:
 		sentinel = errors.New("sentinel " + id)
 		ret = sentinel
@@ -306,8 +328,18 @@ func (c *core) mkPayload(what string, attempt int) any {
 	return &payload{Node: c.id, Visit: c.visit - 1, Attempt: attempt, What: what}
 }
 
+// RunawayLimit bounds the callbacks of one run: generated scenarios end after a few dozen; a run that is still
+// going after this many has left the path its table determines (e.g. an endless cycle) and is cut off by
+// failing the next prep.
+const RunawayLimit = 5000
+
+var errRunaway = errors.New("harness: runaway run cut off")
+
 func (c *core) prep(ctx context.Context, shared *flyt.SharedStore) (any, error) {
-	c.x.enter()
+	if c.x.enter() > RunawayLimit {
+		c.x.runaway.Store(true)
+		return nil, errRunaway
+	}
 	c.visit++
 	c.haveVisit = true
 	c.attempt = 0
@@ -387,6 +419,39 @@ func (c *core) post(ctx context.Context, shared *flyt.SharedStore, prepRes, exec
 	if s.PostErr {
 		c.x.setRet(seq, errID(c.id, v, "post", 0))
 		return flyt.Action("ignored-action"), c.x.mkErr(c.spec.ErrKind, errID(c.id, v, "post", 0))
+	}
+	return flyt.Action(s.Post), nil
+}
+
+// item is the per-item exec of a KBatch node: the first item fails when the script says FirstOK > 1
+// (an item failure must not end the run).
+func (c *core) item(ctx context.Context, v any) (any, error) {
+	c.x.enter()
+	c.attempt++
+	vis := c.visit - 1
+	e := Event{Node: c.id, Visit: vis, Phase: "item", Attempt: c.attempt, StoreOK: true, PrepOK: zoo.Same(v, c.curPrep), CtxDone: ctx.Err() != nil}
+	c.x.record(e)
+	if c.attempt == 1 && c.script().FirstOK > 1 {
+		return nil, errors.New("item failure (must not end the run)")
+	}
+	return c.attempt, nil
+}
+
+func (c *core) batchPost(ctx context.Context, shared *flyt.SharedStore, items, results []flyt.Result) (flyt.Action, error) {
+	c.x.enter()
+	vis := c.visit - 1
+	e := Event{Node: c.id, Visit: vis, Phase: "post", StoreOK: shared == c.x.store, PrepOK: len(items) == 2, ExecOK: len(results) == 2, CtxDone: ctx.Err() != nil}
+	seq := c.x.record(e)
+	if shared != nil {
+		lg, _ := shared.Get("log")
+		l, _ := lg.([]string)
+		l = append(append([]string(nil), l...), fmt.Sprint(c.id))
+		shared.Set("log", l)
+	}
+	s := c.script()
+	if s.PostErr {
+		c.x.setRet(seq, errID(c.id, vis, "post", 0))
+		return flyt.Action("ignored-action"), c.x.mkErr(c.spec.ErrKind, errID(c.id, vis, "post", 0))
 	}
 	return flyt.Action(s.Post), nil
 }
@@ -516,6 +581,23 @@ func (x *Exec) build(id int) flyt.Node {
 			opts = append(opts, flyt.WithExecFallbackFunc(c.fallback))
 		}
 		n = flyt.NewNode(opts...).WithExecFunc(execR).WithPostFuncAny(c.post)
+	case KBatch:
+		bn := flyt.NewBatchNode().
+			WithPrepFunc(func(ctx context.Context, s *flyt.SharedStore) ([]flyt.Result, error) {
+				v, err := c.prep(ctx, s)
+				if err != nil {
+					return nil, err
+				}
+				return []flyt.Result{flyt.NewResult(v), flyt.NewResult(v)}, nil
+			}).
+			WithExecFuncAny(func(ctx context.Context, v any) (any, error) { return c.item(ctx, v) }).
+			WithPostFunc(func(ctx context.Context, s *flyt.SharedStore, items, results []flyt.Result) (flyt.Action, error) {
+				return c.batchPost(ctx, s, items, results)
+			})
+		if id%2 == 0 {
+			bn = bn.WithBatchErrorHandling(true)
+		}
+		n = bn
 	case KFlow:
 		// placeholder first (cycles through nested flows are not generated)
 		fs := spec.Flow
@@ -548,6 +630,21 @@ func NewExec(sc *Scenario) *Exec {
 
 // RunOnce performs one run of the root (events of this run only).
 func (x *Exec) RunOnce() (out Outcome) {
+	defer func() {
+		// Connect calls scheduled after this run
+		for _, rw := range x.Sc.Rewire {
+			if rw.AfterRun == x.runIdx {
+				if f, ok := x.nodes[rw.Flow].(*flyt.Flow); ok {
+					var to flyt.Node
+					if rw.Conn.To >= 0 {
+						to = x.build(rw.Conn.To)
+					}
+					f.Connect(x.build(rw.Conn.From), flyt.Action(rw.Conn.Action), to)
+				}
+			}
+		}
+		x.runIdx++
+	}()
 	if x.store == nil || x.Sc.FreshStore {
 		x.store = flyt.NewSharedStore()
 	}
@@ -602,6 +699,8 @@ func (x *Exec) RunOnce() (out Outcome) {
 		}
 	}()
 	out.Action = string(action)
+	out.Runaway = x.runaway.Load()
+	x.runaway.Store(false)
 	out.ErrNil = err == nil
 	out.err = err
 	out.CancelSeq = x.cancelSeq
